@@ -26,6 +26,11 @@ type Node struct {
 	Path        string   // file
 	FileName    [16]byte // fwfile
 	Port, Iface byte     // usb
+	// raw: any node type / subtype with an arbitrary body; LenField != 0 overrides the length field (then the
+	// encoding is deliberately inconsistent: for robustness checks only)
+	Type, Sub byte
+	Body      []byte
+	LenField  uint16
 }
 
 func utf16z(s string) []byte {
@@ -65,6 +70,12 @@ func (n Node) Encode() []byte {
 		return append(hdr(4, 6, 16), n.FileName[:]...)
 	case "usb":
 		return append(hdr(3, 5, 2), n.Port, n.Iface)
+	case "raw":
+		b := append(hdr(n.Type, n.Sub, len(n.Body)), n.Body...)
+		if n.LenField != 0 {
+			binary.LittleEndian.PutUint16(b[2:], n.LenField)
+		}
+		return b
 	}
 	panic("unknown node kind " + n.Kind)
 }
